@@ -172,9 +172,62 @@ func runC04(c *Ctx) {
 	// ---- R04.7: lossy interning of target words ---------------------------------------
 	checkLossyInterning(c, p, matchExplorer)
 
+	// ---- R04.8: adding a document does not depend on what is already in the corpus -----
+	checkUnconditionalAdd(c, p)
+
 	if c.Tier == "thorough" {
 		vtaCrossCheck(c, p, "R04.1", "(*Classifier).Match", matchFn, matchExplorer, matchScope)
 	}
+}
+
+// checkUnconditionalAdd: R04.8. Results must not depend on the order in which documents were added nor
+// on unrelated documents: AddContent therefore has to index and store its document on every path; an
+// early return (for instance "an identical text is already indexed") makes the corpus order-dependent.
+func checkUnconditionalAdd(c *Ctx, p *core.Prog) {
+	rl := rolesOf(p)
+	ac := p.Func(v2pkg, "(*Classifier).AddContent")
+	if !c.R.Anchor(ac != nil && rl.ok, "v2.(*Classifier).AddContent") {
+		return
+	}
+	// follow static callees (same package) until the store into the corpus map is found; on the way every
+	// function must reach the call / the store on all paths to its returns
+	var find func(fn *ssa.Function, depth int) (bool, string)
+	find = func(fn *ssa.Function, depth int) (bool, string) {
+		if depth > 4 {
+			return false, "the store into the corpus map was not found"
+		}
+		for _, b := range fn.Blocks {
+			for _, in := range b.Instrs {
+				if mu, ok := in.(*ssa.MapUpdate); ok && isClsField(mu.Map, func(r *v2Roles) string { return r.docs }) {
+					for _, rb := range fn.Blocks {
+						if _, isRet := rb.Instrs[len(rb.Instrs)-1].(*ssa.Return); isRet && !b.Dominates(rb) {
+							return false, core.ShortFn(fn) + " can return without storing the document (a path bypasses the store into the corpus map)"
+						}
+					}
+					return true, ""
+				}
+			}
+		}
+		for _, call := range core.CallsIn(fn) {
+			cal := call.Common().StaticCallee()
+			if cal == nil || core.FuncPkgPath(cal) != v2pkg || len(cal.Blocks) == 0 {
+				continue
+			}
+			if ok, why := find(cal, depth+1); ok {
+				for _, rb := range fn.Blocks {
+					if _, isRet := rb.Instrs[len(rb.Instrs)-1].(*ssa.Return); isRet && !call.Block().Dominates(rb) {
+						return false, core.ShortFn(fn) + " can return without adding the document (a path bypasses " + cal.Name() + ")"
+					}
+				}
+				return true, ""
+			} else if why != "" && why != "the store into the corpus map was not found" {
+				return false, why
+			}
+		}
+		return false, "the store into the corpus map was not found"
+	}
+	ok, why := find(ac, 0)
+	c.R.Check(ok, "R04.8", "AddContent stores its document on every path", p.Pos(ac.Pos()), "every path through AddContent reaches the store into the corpus map", why+": whether a document is part of the corpus then depends on the documents added before it, so results depend on insertion order")
 }
 
 func describeSorted(s *eng.SortSite) string {
@@ -291,6 +344,10 @@ func checkNondet(c *Ctx, p *core.Prog, e *eng.Explorer) {
 			nSites++
 			recv := call.Common().Args[0]
 			key := "the word diff (" + strings.TrimPrefix(n, "(*"+core.DiffPkg+".DiffMatchPatch).") + ") runs under a wall-clock DiffTimeout"
+			if ns, explicit := explicitTimeout(recv, call); explicit && ns > 0 {
+				// a deadline other than the library default: more (or differently) load-dependent than the known finding
+				key = fmt.Sprintf("the word diff runs under an explicitly set wall-clock DiffTimeout of %d ns", ns)
+			}
 			if ok, why := timeoutDisabled(fn, recv, call); ok {
 				c.R.OK("R04.5", core.ShortFn(fn)+": diff runs with DiffTimeout disabled", p.Pos(call.Pos()), why)
 			} else {
@@ -299,6 +356,28 @@ func checkNondet(c *Ctx, p *core.Prog, e *eng.Explorer) {
 		}
 	}
 	c.R.RequireMin("R04.5", "DiffMain call sites in the Match tree", nSites, 1)
+}
+
+// explicitTimeout: a constant stored into the receiver's DiffTimeout before the call.
+func explicitTimeout(recv ssa.Value, call ssa.CallInstruction) (int64, bool) {
+	refs := recv.Referrers()
+	if refs == nil {
+		return 0, false
+	}
+	for _, u := range *refs {
+		fa, ok := u.(*ssa.FieldAddr)
+		if !ok || core.FieldName(fa) != "DiffTimeout" {
+			continue
+		}
+		for _, uu := range *fa.Referrers() {
+			if st, ok := uu.(*ssa.Store); ok {
+				if v, ok := core.ConstInt(st.Val); ok {
+					return v, true
+				}
+			}
+		}
+	}
+	return 0, false
 }
 
 func guardedByTimeout(call ssa.CallInstruction) bool {
